@@ -78,6 +78,14 @@ def field_decl(f, vis=""):
         elif form == "after":
             # the documentation follows the #[bits] attribute
             after.append("/// " + f["doc"])
+        elif form == "blank-first":
+            # the documentation starts with an empty line
+            lines.append("///")
+            lines.append("/// " + f["doc"])
+        elif form == "blank-mid":
+            lines.append("/// " + f["doc"][:5])
+            lines.append("///")
+            lines.append("/// " + (f["doc"][5:] or "."))
         elif form == "split":
             lines.append("/// " + f["doc"][:4])
             after.append("#[doc = %s]" % rstr(f["doc"][4:] or "."))
@@ -163,7 +171,7 @@ def bitfield_decl(case, vis=None, docs=False):
     for f in case["fields"]:
         f2 = f
         if docs and not f.get("doc"):
-            f2 = dict(f, doc="field %s" % f["name"].replace("r#", ""), doc_form=("///", "attr", "concat", "///", "after", "split")[(len(f["name"]) + f["ranges"][0][0]) % 6])
+            f2 = dict(f, doc="field %s" % f["name"].replace("r#", ""), doc_form=("///", "attr", "concat", "///", "after", "split", "blank-first", "blank-mid")[(len(f["name"]) + f["ranges"][0][0]) % 8])
         for l in field_decl(f2, vis=("pub " if case.get("pub_fields") else "")):
             body.append("    " + l)
     body.append("}")
@@ -381,8 +389,32 @@ def subject_module(case):
         L.append("    " + l)
     mark("helpers", s0)
     s0 = len(L)
-    for l in bitfield_decl(case):
-        L.append("    " + l)
+    if case.get("byvalue_trait"):
+        # the declaration lives in a nested module in which a trait with by-value methods named like the readable fields is implemented for the struct;
+        # only the struct (and its default constant) is re-exported, so the glue below never sees the trait
+        L.append("    pub mod decl_scope {")
+        L.append("        #![allow(dead_code, non_camel_case_types, unused_imports)]")
+        L.append("        use arbitrary_int::*;")
+        L.append("        use bitbybit::{bitenum, bitfield};")
+        L.append("        use super::*;")
+        for l in bitfield_decl(case):
+            L.append("        " + l)
+        L.append("        pub struct VfHijacked;")
+        L.append("        impl ::core::fmt::Debug for VfHijacked { fn fmt(&self, f: &mut ::core::fmt::Formatter<'_>) -> ::core::fmt::Result { f.write_str(\"HIJACKED-BY-TRAIT-METHOD\") } }")
+        L.append("        pub trait VfByValue: Sized {")
+        for f in case["fields"]:
+            if "r" in f["access"]:
+                L.append("            fn %s(self%s) -> VfHijacked { VfHijacked }" % (f["name"], ", _i: usize" if f["array"] else ""))
+        L.append("        }")
+        L.append("        impl VfByValue for %s {}" % case["name"])
+        L.append("    }")
+        exports = [case["name"]]
+        if case["default"] is not None and case["default"]["form"] == "const":
+            exports.append(case["default"].get("const_name") or "DEFAULT_%s" % case["name"].upper())
+        L.append("    pub use self::decl_scope::{%s};" % ", ".join(exports))
+    else:
+        for l in bitfield_decl(case):
+            L.append("    " + l)
     mark("decl", s0)
     s0 = len(L)
     enums = [h for h in case.get("helpers", []) if h["kind"] == "enum"]
